@@ -4,7 +4,7 @@
    (iii) Proof/SubstGraph.v + Proof/X86Mem.v   one erase / share per object variable and their meaning. *)
 From Coq Require Import List ZArith NArith String Bool Lia FMapPositive Permutation Sorted.
 From SCC Require Import Base.Sexp Lang.AxSyn Sem.AxSem Model.ParMoves Model.Backend Model.X86 Sem.X86Sem
-     Generated.Constants Proof.X86State Proof.X86Sel Proof.X86Exec Proof.X86Mem Proof.ParMovesScratch
+     Generated.Constants Proof.X86State Proof.X86Sel Proof.X86Exec Proof.X86MemSubst Proof.ParMovesScratch
      Proof.X86ParMoves Proof.SubstGraph.
 Import ListNotations.
 Open Scope Z_scope.
